@@ -1303,6 +1303,8 @@ func (ex *Exec) doConvert(fr *Frame, st *State, x *ssa.Convert) {
 		u := x.Type().Underlying().(*types.Slice)
 		if b, ok := u.Elem().Underlying().(*types.Basic); ok && b.Kind() == types.Int32 {
 			st.assume(eq(n, "(runeCount "+sv.T+")"))
+			h := ex.w.elemHeap(u.Elem())
+			st.assume(eq(sel(ex.heapTerm(st, h), r), "(runesOf "+sv.T+")"))
 		}
 		if b, ok := u.Elem().Underlying().(*types.Basic); ok && b.Kind() == types.Uint8 {
 			st.assume(eq(n, "(strlen "+sv.T+")"))
@@ -1318,6 +1320,10 @@ func (ex *Exec) doConvert(fr *Frame, st *State, x *ssa.Convert) {
 		u := x.X.Type().Underlying().(*types.Slice)
 		if b, ok := u.Elem().Underlying().(*types.Basic); ok && b.Kind() == types.Uint8 {
 			st.assume(eq("(strlen "+c+")", sLen(sv.T)))
+		}
+		if b, ok := u.Elem().Underlying().(*types.Basic); ok && b.Kind() == types.Int32 {
+			h := ex.w.elemHeap(u.Elem())
+			st.assume(eq(c, "(strOfRunes "+sel(ex.heapTerm(st, h), sArr(sv.T))+" "+sOff(sv.T)+" "+sLen(sv.T)+")"))
 		}
 		st.vals[x] = SVal{T: c}
 	default:
